@@ -964,3 +964,48 @@ class BMPSoftwareVersion:
                 and result.can_id == (g_arg1 // 256) % 256 and result.board_id == g_arg1 % 256
                 and result.buffer_size == g_arg2 % 65536 and result.build_date == g_arg3
                 and result.version_string == 101 and result.version == 102 and result.version_labels == 103)
+
+
+# ---- IP tags: set on / read from / cleared on the chip named -------------------------------------------------------------------------------
+def _mc_scp_all(E, obj, args, kwargs, st, node):
+    s = st.copy()
+    s.trace = ListV(s.trace.items + (("scp",) + tuple(args) + (tuple(sorted(kwargs.items())),),))
+    return [(s, ObjV("SCPPacket", {"data": ObjV("Bytes", {"ident": 77})}), None)]
+
+
+def _iptag_parse(E, args, kwargs, st, node):
+    return [(st, ObjV("IPTag", {"parsed_from": args[0].fields["ident"]}))]
+
+
+@contract("rig/machine_control/machine_controller.py::MachineController.iptag_clear")
+class IptagClear:
+    """one IPTag command to the monitor of exactly the chip named: operation clear, the tag named"""
+    properties = ("C18",)
+    params = dict(self=TRec("MachineController"), iptag=TInt(0, 7), x=TInt(0, 255), y=TInt(0, 255))
+    externals = {"MachineController._send_scp": _mc_scp_all}
+    options = {"decorators": {"use_contextual_arguments": "identity"}, "int_class": "rig/machine_control/consts.py::SCPCommands"}
+    assumptions = ["use_contextual_arguments as the identity; _send_scp (MCSendScp) is recorded"]
+
+    def native(x):
+        raise __import__("pyvc.replay", fromlist=["OutsideHarness"]).OutsideHarness()
+
+    def ensures_clears_this_tag_on_this_chip(iptag, x, y, _trace):
+        return len(_trace) == 1 and _trace[0] == ("scp", x, y, 0, 26, 3 * 65536 + iptag, ())
+
+
+@contract("rig/machine_control/machine_controller.py::MachineController.iptag_get")
+class IptagGet:
+    """one IPTag command to the monitor of exactly the chip named: operation get, the tag named, one tag asked for; what is returned
+    is decoded from that reply's data"""
+    properties = ("C18",)
+    params = dict(self=TRec("MachineController"), iptag=TInt(0, 7), x=TInt(0, 255), y=TInt(0, 255))
+    externals = {"MachineController._send_scp": _mc_scp_all, "def:from_bytestring": _iptag_parse}
+    options = {"decorators": {"use_contextual_arguments": "identity"}, "int_class": "rig/machine_control/consts.py::SCPCommands"}
+    assumptions = ["use_contextual_arguments as the identity; _send_scp (MCSendScp) is recorded; IPTag.from_bytestring is opaque"]
+
+    def native(x):
+        raise __import__("pyvc.replay", fromlist=["OutsideHarness"]).OutsideHarness()
+
+    def ensures_reads_this_tag_of_this_chip(iptag, x, y, result, _trace):
+        return (len(_trace) == 1 and _trace[0] == ("scp", x, y, 0, 26, 2 * 65536 + iptag, 1, (("expected_args", 0),))
+                and result.parsed_from == 77)
